@@ -20,8 +20,10 @@ established the code is left as it is (the recognisers then see an unknown shape
           ->  `if not c: rest`;  `if c: pass else: B` -> `if not c: B`;  `if not c: A else: B` -> `if c: B else: A`.
  alias    a local name with exactly one store `x = <rhs>` whose uses all follow the store inside the same block is
           replaced by <rhs> when nothing <rhs> reads is stored in between (explicit stores to a prefix of a path read
-          by <rhs>, subscripts stripped).  If <rhs> contains a call the name must be used exactly once and additionally
-          no procedure-call statement and no store related in either direction may lie in between.
+          by <rhs>, subscripts stripped; a `set_*` / `_set_*` method called on an owner of such a path; "in between"
+          includes the whole of a loop that contains a use and starts after the store).  If <rhs> contains a call the
+          name must be used exactly once, not inside a loop / lambda / comprehension, and additionally no call other
+          than numpy / builtin pure ones and no store related in either direction may lie in between.
  unroll   `for x in (<constants>): body`  (x not stored in the body, no break/continue left, no else) -> the body once
           per constant with x replaced.
  fold     comparisons of two constants, `and` / `or` / `not` with constant operands, `if <constant>:`,
@@ -171,11 +173,12 @@ def params_of(fn: ast.FunctionDef) -> list:
 
 class Normaliser:
     def __init__(self, module: ast.Module, cls: ast.ClassDef | None = None, keep: set | None = None,
-                 inline: bool = True):
+                 inline: bool = True, mutators=()):
         self.module = module
         self.cls = cls
         self.keep = set(keep or ())       # call names (as unparsed: "self._set_steps", "calculate_steps") never inlined
         self.do_inline = inline
+        self.mutators = set(mutators or ())   # method names known to rebind attributes of their receiver
         self.log: list[str] = []           # which rewrites were applied (evidence / debugging)
         self._mod_consts = None
 
@@ -520,7 +523,13 @@ class Normaliser:
                 # a use inside a nested scope / loop below the store would re-evaluate the rhs: only for call-free rhs
                 if has_call and self._inside_repeat(b[k + 1:], uses[0]):
                     continue
-                if not self._undisturbed(fn, order, rhs, lo, upos[-1], has_call, b[k + 1:]):
+                # a use inside a loop that starts after the store is reached again after everything else in that loop
+                hi_use = upos[-1]
+                for s2 in b[k + 1:]:
+                    for n in ast.walk(s2):
+                        if isinstance(n, (ast.For, ast.While)) and any(u is v for u in uses for v in ast.walk(n)):
+                            hi_use = max(hi_use, last_index(n, order))
+                if not self._undisturbed(fn, order, rhs, lo, hi_use, has_call, self.mutators):
                     continue
                 del b[k]
                 if not b:
@@ -534,7 +543,9 @@ class Normaliser:
     def _alias_rhs_ok(e) -> bool:
         ok = (ast.Name, ast.Attribute, ast.Subscript, ast.Constant, ast.UnaryOp, ast.BinOp, ast.BoolOp, ast.Compare,
               ast.Call, ast.IfExp, ast.Tuple, ast.keyword, ast.Load, ast.operator, ast.unaryop, ast.boolop, ast.cmpop,
-              ast.List, ast.Slice)
+              ast.Slice)
+        # no list / dict / set displays: each evaluation creates a NEW mutable object (identity matters); a call that
+        # creates one is only ever moved, never duplicated (single use)
         return all(isinstance(n, ok) for n in ast.walk(e))
 
     @staticmethod
@@ -548,7 +559,7 @@ class Normaliser:
         return False
 
     @staticmethod
-    def _undisturbed(fn, order, rhs, lo, hi, has_call, following) -> bool:
+    def _undisturbed(fn, order, rhs, lo, hi, has_call, mutators=()) -> bool:
         read = []
         for n in ast.walk(rhs):
             if isinstance(n, (ast.Name, ast.Attribute, ast.Subscript)):
@@ -556,9 +567,20 @@ class Normaliser:
                 if p is not None:
                     read.append(p)
         read = set(read)
+        # the target of an assignment is stored AFTER its value has been evaluated
+        late = {}
+        for n in ast.walk(fn):
+            if isinstance(n, (ast.Assign, ast.AugAssign)):
+                for t in (n.targets if isinstance(n, ast.Assign) else [n.target]):
+                    for m in ast.walk(t):
+                        late[id(m)] = last_index(n, order) + 0.5
         for n in ast.walk(fn):
             i = order.get(id(n))
-            if i is None or not (lo < i <= hi):
+            if i is None:
+                continue
+            if isinstance(n, (ast.Name, ast.Attribute, ast.Subscript)) and isinstance(n.ctx, (ast.Store, ast.Del)):
+                i = late.get(id(n), i)
+            if not (lo < i <= hi):
                 continue
             sp = None
             if isinstance(n, (ast.Name, ast.Attribute, ast.Subscript)) and isinstance(n.ctx, (ast.Store, ast.Del)):
@@ -569,6 +591,13 @@ class Normaliser:
                 for p in read:
                     if is_prefix(sp, p) or (has_call and is_prefix(p, sp)):
                         return False
+            if not has_call and isinstance(n, ast.Call) and isinstance(n.func, ast.Attribute) and \
+                    (n.func.attr.startswith(("set_", "_set_")) or n.func.attr in mutators):
+                # a mutator called on an owner of something the rhs reads (detector.set_readout(..) vs
+                # detector.non_destructive_readout; self._set_steps() vs self._steps)
+                rp_ = path_of(n.func.value)
+                if rp_ is not None and any(is_prefix(rp_, p) and len(rp_) < len(p) for p in read):
+                    return False
             if has_call and isinstance(n, ast.Call) and not ast.unparse(n.func).startswith(PURE_CALLS):
                 # a call that completes between the store and the (single) use (a call the use is an argument /
                 # the receiver of ends after the use)
@@ -807,3 +836,207 @@ def normalise(module: ast.Module, fn: ast.FunctionDef, cls: ast.ClassDef | None 
         out = Abbreviate(abbreviate).visit(out)
         ast.fix_missing_locations(out)
     return out, nz.log
+
+
+# ------------------------------------------------------------------------------------------------ self-test
+# Differential test of the normaliser itself: each sample function is executed in its original and in its normal form
+# on the same inputs; results, exceptions and the trace of side effects must be identical.  `expect` names a rewrite
+# that must (or, with a leading '!', must NOT) have been applied -- the side conditions are part of the contract.
+
+_SAMPLES = r'''
+LIMITS = (1, 5)
+NAMES = ("a", "b", "c")
+SKIP = "b"
+
+def _chk(first, start=0.0):
+    if first == 0:
+        raise ValueError("zero")
+    if not start < first:
+        raise ValueError("start")
+
+def _twice(v):
+    return v + v
+
+def _fill(box, key, val):
+    box[key] = val
+    return len(box)
+
+class Box:
+    def __init__(self):
+        self.items = {}
+        self.log = []
+        self.a = self.b = self.c = 1
+    def _reset_items(self):
+        self.items = {"fresh": 1}
+    def _set_items(self, v):
+        self.items = v
+    def is_empty(self):
+        return bool(not self.items)
+
+    def s_helper(self, xs, start):                     # expect: inline:_chk
+        _chk(first=xs[0], start=start)
+        return "ok"
+    def s_helper_dropped(self, xs, start):              # expect: inline:_chk
+        _chk(xs[0])
+        return "ok"
+    def s_elif(self, x):                                # expect: guard:else-hoisted
+        if x < 0:
+            raise ValueError("neg")
+        elif x == 0:
+            raise KeyError("zero")
+        else:
+            y = x + 1
+        return y
+    def s_alias(self, v):                               # expect: alias:cur
+        cur = self.items
+        cur["k"] = v
+        return self.items
+    def s_alias_rebound(self, v):                       # expect: !alias:cur
+        cur = self.items
+        self.items = {}
+        cur["k"] = v
+        return (cur, self.items)
+    def s_alias_mutator(self, v):                       # expect: !alias:cur
+        cur = self.items
+        self._set_items({"z": v})
+        return (cur, self.items)
+    def s_alias_call_moved(self, v):                    # expect: !alias:n
+        n = len(self.items)
+        self.items[v] = v
+        return n
+    def s_alias_loop(self, vs):                         # expect: !alias:n
+        n = self.is_empty()
+        out = []
+        for v in vs:
+            out.append(n)
+            self.items[v] = 1
+        return out
+    def s_named(self, v):                               # expect: alias:has
+        has = not self.is_empty()
+        if has:
+            self.items = {}
+        self.log.append(v)
+        return self.items
+    def s_continue(self, vs):                           # expect: guard:nested
+        out = []
+        for v in vs:
+            if v == 2:
+                continue
+            out.append(v)
+        return out
+    def s_unroll(self, reset):                          # expect: unroll:name
+        for name in NAMES:
+            if name == SKIP and not reset:
+                continue
+            setattr(self, name, 0)
+            self.log.append(getattr(self, name))
+        return (self.a, self.b, self.c, self.log)
+    def s_chain(self, x):                               # expect: consts:LIMITS
+        return LIMITS[0] <= x <= LIMITS[1]
+    def s_chain2(self, x, y):
+        return 0 < x < y <= 9
+    def s_ifexp(self, x):                               # expect: ifexp
+        if x:
+            flag = False
+        else:
+            flag = True
+        return flag
+    def s_inverted(self, x):                            # expect: guard:inverted
+        if not x:
+            self.log.append("no")
+        else:
+            self.log.append("yes")
+            self.items[x] = 1
+        return self.log
+    def s_fresh_object(self, vs):                       # expect: !alias:out
+        out = []
+        for v in vs:
+            out.append(v)
+        acc = {}
+        acc[1] = out
+        return (out, acc)
+    def s_match(self, x):                               # expect: match
+        match x:
+            case 1 | 2:
+                r = "small"
+            case "big":
+                r = "big"
+            case _:
+                r = "other"
+        return r
+    def s_early_return(self, reset):                    # expect: guard:nested
+        self.log.append("always")
+        if not reset:
+            return
+        self.log.append("reset")
+    def s_value_helper(self, v):                        # expect: inline:_fill
+        n = _fill(self.items, "k", v)
+        return (n, self.items)
+    def s_expr_helper(self, v):                         # expect: inline-expr:_twice
+        return _twice(v) + 1
+    def s_method_helper(self):                          # expect: inline:_reset_items
+        self._reset_items()
+        return self.items
+    def s_boolfold(self, x):
+        return (True and x, x and False, False or x, not not x)
+'''
+
+_INPUTS = {
+    "s_helper": [([1.0], 0.0), ([0.0], -1.0), ([1.0], 2.0), ([float("nan")], 0.0), ([], 0.0)],
+    "s_helper_dropped": [([1.0], 0.0), ([-1.0], -2.0), ([0], 1)],
+    "s_elif": [(-1,), (0,), (3,)], "s_alias": [(1,)], "s_alias_rebound": [(1,)], "s_alias_mutator": [(1,)],
+    "s_alias_call_moved": [(1,)], "s_alias_loop": [([1, 2],)], "s_named": [(1,)], "s_continue": [([1, 2, 3],)],
+    "s_unroll": [(True,), (False,), (0,), ("x",)], "s_chain": [(0,), (1,), (5,), (6,)],
+    "s_chain2": [(1, 2), (0, 2), (3, 2), (3, 10)], "s_ifexp": [(0,), (1,), ("",), ([1],)],
+    "s_inverted": [(0,), (1,)], "s_fresh_object": [([1, 2],)], "s_match": [(1,), (2,), ("big",), (None,)], "s_early_return": [(True,), (False,)],
+    "s_value_helper": [(7,)], "s_expr_helper": [(2,), ("a",)], "s_method_helper": [()],
+    "s_boolfold": [(0,), (1,), ("",), ([],)],
+}
+
+
+def selftest() -> dict:
+    """Returns dict(functions=.., runs=.., failures=[..])."""
+    import re
+    mod = ast.parse(_SAMPLES)
+    cls = [n for n in mod.body if isinstance(n, ast.ClassDef)][0]
+    expects = dict(re.findall(r"def (s_\w+)\(.*# expect: (\S+)", _SAMPLES))
+    new_cls = copy.deepcopy(cls)
+    failures, logs = [], {}
+    for k, fn in enumerate(cls.body):
+        if isinstance(fn, ast.FunctionDef) and fn.name.startswith("s_"):
+            nz = Normaliser(mod, cls)
+            new_cls.body[k] = nz.function(fn)
+            logs[fn.name] = nz.log
+            e = expects.get(fn.name)
+            if e and ((e.startswith("!") and e[1:] in nz.log) or (not e.startswith("!") and e not in nz.log)):
+                failures.append(f"{fn.name}: expected {e}, applied {nz.log}")
+    new_mod = ast.Module(body=[new_cls if n is cls else n for n in mod.body], type_ignores=[])
+    ast.fix_missing_locations(new_mod)
+    envs = []
+    for m in (mod, new_mod):
+        env: dict = {}
+        exec(compile(m, "<c02_norm selftest>", "exec"), env)
+        envs.append(env)
+    runs = 0
+    for name, inputs in _INPUTS.items():
+        for args in inputs:
+            outs = []
+            for env in envs:
+                box = env["Box"]()
+                try:
+                    r = ("ok", repr(getattr(box, name)(*copy.deepcopy(args))))
+                except Exception as ex:      # noqa: BLE001
+                    r = ("exc", type(ex).__name__, str(ex))
+                outs.append((r, repr(box.items), repr(box.log), box.a, box.b, box.c))
+            runs += 1
+            if outs[0] != outs[1]:
+                failures.append(f"{name}{args}: original {outs[0]} normal form {outs[1]}")
+    return dict(functions=len(logs), runs=runs, failures=failures, applied=logs)
+
+
+if __name__ == "__main__":
+    import json
+    r = selftest()
+    print(json.dumps({k: v for k, v in r.items() if k != "applied"}, indent=1))
+    for k, v in r["applied"].items():
+        print(f"  {k}: {v}")
